@@ -1,7 +1,7 @@
 (* C32 — property theorems only.  Each is closed by `exact <lemma>` and followed by Print Assumptions.
    (Refutations / examples are closed by vm_compute on a concrete witness.) *)
 From Coq Require Import List ZArith NArith Arith Bool.
-From Verif.C32 Require Import Model Spec Proofs Walk.
+From Verif.C32 Require Import Model Spec Proofs Walk Conserve.
 Import ListNotations.
 Open Scope Z_scope.
 
@@ -86,11 +86,81 @@ Theorem c32_emit_at_most_once : forall n interval now p k fa ops,
   (1 <= k)%nat -> (p + k + 2 <= n)%nat -> 0 < interval ->
   pdisj (emitted_intervals (run (new_ring n interval now p k true fa) ops))
   /\ ~ In ODiverge (run (new_ring n interval now p k true fa) ops).
-Proof.
-  intros n interval now p k fa ops Hk Hc Hi.
-  exact (run_winv ops _ [] (new_ring_winv n interval now p k fa Hk Hc Hi)).
-Qed.
+Proof. exact at_most_once_all_histories. Qed.
 Print Assumptions c32_emit_at_most_once.
+
+(* Statistics = sums of the accepted flows in range that are still retained, for EVERY valid configuration and EVERY
+   history; `run_log` is the log of the flows the history accepted.  Rounding rule, exactly: with
+     lo = start of the bucket containing gte   (gte = 0: the beginning of history, ys = n-1 steps behind the head)
+     hi = start of the bucket containing lt    (lt  = 0: the start of the head bucket, eoh - interval)
+   i.e. BOTH bounds rounded DOWN to a bucket boundary, the answer for policy q is the sum over the accepted flows f of
+   that policy with lo <= f_start f < hi (None when there is no such flow); so bucket-aligned ranges are exact.  Flows
+   that have left the history are < boh <= lo and do not count.  (ye <= ys says lo <= hi, i.e. not the wrapped
+   iteration goldmane excludes by validating gte < lt; an error result means a non-zero bound is outside the history:
+   c32_one_bucket.)
+   Invariant (Conserve.sinv): every accepted start time is < eoh, and every slot's statistics map has distinct keys and
+   maps policy q to the sum of the logged flows of q whose start lies in the slot's interval. *)
+Theorem c32_query_sums_statistics : forall n interval now p k fa ops gte lt res,
+  (1 <= k)%nat -> (p + k + 2 <= n)%nat -> 0 < interval ->
+  let r0 := new_ring n interval now p k true fa in
+  let r := run_state r0 ops in
+  let log := run_log r0 [] ops in
+  statistics r gte lt = Some res ->
+  exists ys ye, (ys < nb r)%nat /\ (ye < nb r)%nat
+    /\ (if gte =? 0 then ys = (nb r - 1)%nat else b_start (bk r (sub r ys)) <= gte < b_end (bk r (sub r ys)))
+    /\ (if lt =? 0 then ye = 0%nat else b_start (bk r (sub r ye)) <= lt < b_end (bk r (sub r ye)))
+    /\ ((ye <= ys)%nat -> forall q,
+          alookup q res = sem (fun f => (b_start (bk r (sub r ys)) <=? f_start f) && (f_start f <? b_start (bk r (sub r ye)))
+                                        && N.eqb (pol_of (f_key f)) q) log).
+Proof. exact statistics_all_histories. Qed.
+Print Assumptions c32_query_sums_statistics.
+
+(* PARTIAL emit_complete: in every reachable state, the key set gathered for a window W x of the emission walk
+   (maybeBuildFlowCollection's union of the buckets' Flows sets) is EXACTLY the set of keys of the accepted flows whose
+   start time lies in the window's interval [c_start, c_end): no accepted flow's key in an emitted window is left out
+   of the collection's candidates, and nothing foreign gets in (invariant Conserve.kinv: a key is in a slot's Flows set
+   iff the log holds a flow of that key starting in the slot's interval).
+   MISSING for the full c32_emit_complete and for c32_query_sums of List (both read the counts from DiachronicFlow):
+   the window invariant `dinv r log`, for every key k with ws = Windows of k in r_dia (or [] if absent):
+     (1) NoDup (map fst (r_dia r));  (2) ws is strictly sorted by w_start;
+     (3) every w in ws has, for some retained slot j, w_start = b_start (bk r j), w_end = b_end (bk r j) and
+         Some (w_cnt w) = sem (kin r k j) log   (so no empty window);
+     (4) for every retained slot j with existsb (kin r k j) log = true some w in ws has w_start = b_start (bk r j);
+   preserved by win_add (insert/add at the found position, needs (2)), by roll_key/win_roll on Rollover (the only
+   window with w_end <= new boh is the head of ws, needs (2),(3) and kinv to see that untouched keys have no expired
+   window) and trivially by emission; from it Aggregate(st, en) = sum of the windows wholly inside [st, en] = (slots
+   being disjoint) the sum of the logged flows of k in those buckets, provided 0 < boh (0 means "unbounded" in
+   GetWindows/Within).  The correspondence run checks exactly these two clauses on every case through Spec.ok_list and
+   Spec.ok_collection (on the implementation's and the model's outputs); c32_model_meets_spec for them is therefore
+   also open (it additionally needs: two key-sorted duplicate-free lists with the same lookup are equal). *)
+Theorem c32_emit_complete_keys_partial : forall n interval now p k fa ops x key,
+  (1 <= k)%nat -> (p + k + 2 <= n)%nat -> 0 < interval ->
+  let r0 := new_ring n interval now p k true fa in
+  let r := run_state r0 ops in
+  let log := run_log r0 [] ops in
+  (x + r_agg r < nb r)%nat ->
+  (In key (fold_left (fun acc i => set_union acc (b_keys (bk r i))) (c_buckets (W r x)) [])
+   <-> existsb (fun f => N.eqb (f_key f) key && ((c_start (W r x) <=? f_start f) && (f_start f <? c_end (W r x)))) log = true).
+Proof. exact window_keys_all_histories. Qed.
+Print Assumptions c32_emit_complete_keys_partial.
+
+(* What an emission is, exactly (used by the two theorems above): it terminates; the walk visits the windows W x for
+   x = pushAfter+1, pushAfter+1+k, ... while the window's start slot is unpushed and the window stays short of the
+   head; the non-empty ones are handed over oldest first; exactly their slots become pushed; nothing else changes. *)
+Theorem c32_emit_shape : forall r, ring_ok r -> cfg_ok r ->
+  exists m r' sent,
+    let xs := seqk (r_agg r) (S (r_push_after r)) m in
+    emit r = Some (r', sent)
+    /\ sent = filter (fun c => negb (Nat.eqb (length (c_flows c)) 0)) (rev (map (W r) xs))
+    /\ (forall x, In x xs -> (S (r_push_after r) <= x)%nat /\ (x + r_agg r < nb r)%nat
+          /\ b_pushed (bk r (sub r (x + r_agg r))) = false
+          /\ (x = S (r_push_after r) \/ exists x', In x' xs /\ x = (x' + r_agg r)%nat))
+    /\ nb r' = nb r /\ r_head r' = r_head r /\ r_interval r' = r_interval r /\ r_dia r' = r_dia r
+    /\ r_agg r' = r_agg r /\ r_push_after r' = r_push_after r /\ r_fix_walk r' = r_fix_walk r /\ r_fix_agg r' = r_fix_agg r
+    /\ forall j, (j < nb r)%nat ->
+         bk r' j = if existsb (fun c => existsb (Nat.eqb j) (c_buckets c)) sent then set_pushed (bk r j) else bk r j.
+Proof. exact emit_spec. Qed.
+Print Assumptions c32_emit_shape.
 
 (* ---- the property is FALSE of the code as found (variant fw = fa = false); witnesses replayed on the real code ---- *)
 Definition fl (k : N) (t p b : Z) : flow := {| f_key := k; f_start := t; f_cnt := (p, b) |}.
